@@ -378,3 +378,24 @@ def gen_case(seed, cid, n_states=4, n_calls=3, ground_only=False, **kw):
             calls.append({"act": "act", "args": args, "s": si, "mode": "apply",
                           "allow": r < 0.3, "skip": 0.3 <= r < 0.4})
     return {"id": cid, "tree": tree, "objs": objs, "states": states, "calls": calls}
+
+
+def rename_map(rng, params):
+    """an injective renaming of all the parameters: fresh names, a permutation of the existing ones or a chain
+    (quantified variables ?z / ?w are never used as new names)"""
+    names = [p for p, _ in params]
+    if not names:
+        return {}
+    kind = rng.choice(["fresh", "perm", "perm", "chain", "param_i"])
+    if kind == "fresh":
+        return {n: f"?n{i}" for i, n in enumerate(names)}
+    if kind == "param_i":
+        return {n: f"?param_{i}" for i, n in enumerate(names)}
+    if kind == "perm" and len(names) >= 2:
+        sh = names[:]
+        while sh == names:
+            rng.shuffle(sh)
+        return dict(zip(names, sh))
+    if kind == "chain" and len(names) >= 2:
+        return {names[i]: (names[i + 1] if i + 1 < len(names) else "?fresh") for i in range(len(names))}
+    return {n: f"?m{i}" for i, n in enumerate(names)}
